@@ -37,7 +37,7 @@ META = dict(
     need=["wf_signal_mean", "wf_data_mean", "wf_cov", "curvature_mean", "curvature_cov",
           "cl_map_mean", "cl_mgvi_mean", "cl_mgvi_cov", "re_map_mean", "re_mgvi_mean", "re_mgvi_cov"],
     quick=dict(cases=700, workers=8, budget_s=75),
-    thorough=dict(cases=25000, workers=16, budget_s=780),
+    thorough=dict(cases=10000, workers=16, budget_s=780),
     design_ref="DESIGN.md §5 C20",
     level_text=("every generated model is pushed through the real routes and compared with the dense "
                 "closed form; exploration of models x routes, not exhaustive"),
